@@ -765,7 +765,7 @@ theorem getString_resident (img : Bytes) (b hb : SecBuf) (x : BitVec 32)
     (hd : b.data = (secData_ls img hb).1) (hs : b.size = hb.size)
     (hin : isNullOrNobitsTy hb.stype = false → hb.offset.toNat + hb.size.toNat ≤ img.length) :
     getString b x = .ok (Spec.cstrAt (secBytes img hb) x.toNat) := by
-  unfold getString secBytes
+  rw [LoadTie.getString_hand]; unfold secBytes
   rw [hd]
   unfold secData_ls
   cases hty : isNullOrNobitsTy hb.stype
@@ -793,7 +793,7 @@ theorem resolveNames_eq_ls (strtab : SecBuf) (T : Bytes)
   induction l with
   | nil => rfl
   | cons b rest ih =>
-    simp only [LoadTie.resolveNames_cons, h, ih, List.map_cons, withName_ls]
+    simp only [resolveNames, h, ih, List.map_cons, withName_ls]
     rfl
 
 /-! ### segments inside the file -/
